@@ -613,3 +613,7 @@ class RejuvenationSMC(_NoReplay):
         if case == "return_all":
             cc = jnp_stub.CALLS["concatenate"]
             yield "initial_collection_prepended_to_the_per_step_collections", len(cc) >= 1 and all(isinstance(c["parts"][0], Tensor) and c["parts"][0].shape[0] == 1 for c in cc)
+
+from vt.contract import track as _track  # noqa: E402
+
+_track((UNI, "sample_calls"), CATS.calls, *jnp_stub.CALLS.values())
